@@ -1,14 +1,14 @@
 CONSTANTS
   W = 2
-  Limit = 1
-  L = 2
-  Uds = {2}
+  Limit = 2
+  L = 1
+  Uds = {}
   MaxConns = 3
   MaxFaults = 1
   MaxCmds = 2
   MaxErrs = 1
   MaxBare = 0
-  WakeAt = 2
+  WakeAt = 3
   IgnoreUnknownIdx = TRUE
   UnlinkOnDeregister = FALSE
   ResumeClearsBackoff = TRUE
